@@ -311,6 +311,12 @@ func (ma *MatrixAdjustment) interpolate(tf stringTransformer) error {
 	if err := interpolateMap(tf, ma.With); err != nil {
 		return err
 	}
+	// Skip can be a string (the reason for skipping).
+	skip, err := interpolateAny(tf, ma.Skip)
+	if err != nil {
+		return err
+	}
+	ma.Skip = skip
 	return interpolateMap(tf, ma.RemainingFields)
 }
 
